@@ -43,9 +43,12 @@ COMPOUNDS = [
     ["f", "a", "a"], ["f", "a", "b"], ["f", "b", "a"], ["g", "a", "a"], ["f", "a", ["f", "a"]],
     ["f", "a", "b", "a"], ["h", "a", "a", "a"],
     L("a"), L("b"), L(1), L(10), L(9), L("a", "a"), L("a", "b"), L(L("a")),
+    # a difference inside an earlier nested argument must win over an opposite difference in a
+    # later (shallower) argument: arguments are compared depth-first, left to right
+    ["f", ["g", 1], 2], ["f", ["g", 2], 1], L(["g", 1], "b"), L(["g", 2], "a"),
 ]
 
-U_QUICK = INTS + FLOATS + ATOMS + COMPOUNDS  # 66 terms
+U_QUICK = INTS + FLOATS + ATOMS + COMPOUNDS  # 70 terms
 
 
 def _extra_thorough():
